@@ -21,7 +21,7 @@ FLOORS = {
               "remove_ambiguous_compared": 2000, "remove_ambiguous_dropped": 300,
               "pos:after": 200, "pos:court": 200, "pos:before": 200, "pos:bracket": 200, "pos:range": 200,
               "pos:none": 100, "pos:after_reference": 80, "pos:parallel": 200, "year_boundary:low": 100, "year_boundary:high": 100,
-              "year_rejected": 200},
+              "year_rejected": 200, "db_strings_checked": 800},
     "thorough": {"resource_citations": 500000, "guess_multi": 20000, "ambiguous_left": 20000,
                  "remove_ambiguous_compared": 100000, "year_rejected": 10000},
 }
@@ -158,6 +158,20 @@ def run_shard(spec, rec):
         for p in PROBES:
             rec.ev()
             on_result(p, get_citations(p), dict(text=p, markup=None, steps=None, tokenizer="ac"))
+    # every journal key of the database and every multi-edition reporter string in minimal form (sharded)
+    from eyecite import get_citations
+    keys = gen.DB.journals + gen.DB.multi
+    for n, k in enumerate(keys):
+        if n % SHARDS.get(spec.get("tier", "quick"), 8) != spec["i"] % SHARDS.get(spec.get("tier", "quick"), 8):
+            continue
+        t = f"See {1 + n % 9} {k} {1 + n % 7}{' (1990)' if n % 2 else ''}."
+        try:
+            cs = get_citations(t)
+        except Exception:
+            continue
+        rec.ev()
+        rec.count("db_strings_checked")
+        on_result(t, cs, dict(text=t, markup=None, steps=None, tokenizer="ac"))
     _extract.drive(spec, rec, on_result, extra=year_doc, ref_every=16)
 
 
